@@ -22,7 +22,8 @@ func init() {
 		"lw/i64": {"-9223372036854775808", "-1", "0", "9223372036854775807"}, "lw/i8": {"-128", "126", "127"},
 		"lw/name": {"a", "b", "B", "aa", "z"}, "lw/inner/lim": {"9", "10", "11"},
 		"lst/v": {"2", "3", "4", "6", "-5"}, "lst/t": {"a", "b", "B"}, "lst/big": {"1", "9223372036854775808", "18446744073709551615"},
-		"lst/pc/pv": {"0", "1", "2"}, "uw/on": {"a", "b"}, "uw/gl": {"a"}, "uw/gc/gcl": {"a"}, "lw/inner/augl": {"a", "z"}, "evt/level": {"2", "3", "4", "-3"}, "evt/who": {"a", "b", "z"},
+		"lst/pc/pv": {"0", "1", "2"}, "uw/on": {"a", "b"}, "uw/gl": {"a"}, "uw/gc/gcl": {"a"}, "lw/inner/augl": {"a", "z"}, "evt/level": {"2", "3", "4", "-3"}, "evt/who": {"a", "b", "z", "a+b", "a b", "50%"}, "evt/ratio": {"0.5", "1", "1.5", "2"},
+		"lw/dc": {"0.5", "1", "1.5", "2"}, "lst/d": {"0.5", "1", "1.5", "2"},
 		"evt/cnt": {"0", "9007199254740992", "9007199254740993", "18446744073709551615"},
 	} {
 		gen.Hints[k] = v
@@ -37,6 +38,8 @@ var whereConds = []abs.Cond{
 	{On: true, Path: []string{"t"}, Op: "<", Lit: "b"}, {On: true, Path: []string{"t"}, Op: ">=", Lit: "a"},
 	{On: true, Path: []string{"big"}, Op: ">=", Lit: "9223372036854775808"}, {On: true, Path: []string{"big"}, Op: "<", Lit: "18446744073709551615"},
 	{On: true, Path: []string{"pc", "pv"}, Op: ">", Lit: "1"}, {On: true, Path: []string{"pc", "pv"}, Op: "<=", Lit: "1"},
+	{On: true, Path: []string{"d"}, Op: ">", Lit: "1"}, {On: true, Path: []string{"d"}, Op: "=", Lit: "1.5"},
+	{On: true, Path: []string{"d"}, Op: "<=", Lit: "1"}, {On: true, Path: []string{"d"}, Op: "!=", Lit: "1"}, {On: true, Path: []string{"d"}, Op: "<", Lit: "1.5"},
 }
 
 var filterConds = []abs.Cond{
@@ -44,6 +47,8 @@ var filterConds = []abs.Cond{
 	{On: true, Path: []string{"level"}, Op: "!=", Lit: "2"}, {On: true, Path: []string{"who"}, Op: "=", Lit: "b"},
 	{On: true, Path: []string{"who"}, Op: ">", Lit: "a"}, {On: true, Path: []string{"cnt"}, Op: ">", Lit: "9007199254740992"},
 	{On: true, Path: []string{"cnt"}, Op: "<=", Lit: "9007199254740992"},
+	{On: true, Path: []string{"who"}, Op: "=", Lit: "a+b"}, {On: true, Path: []string{"who"}, Op: "!=", Lit: "a+b"}, {On: true, Path: []string{"who"}, Op: "=", Lit: "50%"},
+	{On: true, Path: []string{"who"}, Op: "=", Lit: "a b"}, {On: true, Path: []string{"ratio"}, Op: ">", Lit: "1"}, {On: true, Path: []string{"ratio"}, Op: "=", Lit: "1.5"},
 }
 
 func planC16(tier string, seed int64) (*core.Plan, error) {
